@@ -155,7 +155,8 @@ static void writeTrace(const fs::path &p, const Trace &t) {
 }
 
 // like vh::simulate, but on a simulator that the caller compiled (so that a test-bench recorder can be attached before power-on)
-static Trace drive(sim::ReferenceSimulator &sim, const vh::Built &b, const vh::Stimulus &st, bool recordReads) {
+// `outDrv` = drivers of the output pins at the time the simulator was compiled (a synthesis tool's prepareCircuit may insert nodes during export)
+static Trace drive(sim::ReferenceSimulator &sim, const vh::Built &b, const vh::Stimulus &st, bool recordReads, const std::vector<hlim::NodePort> &outDrv) {
 	sim.powerOn();
 	hlim::ClockRational period = hlim::ClockRational(1, 1) / b.clock->absoluteFrequency();
 	Trace trace;
@@ -165,8 +166,7 @@ static Trace drive(sim::ReferenceSimulator &sim, const vh::Built &b, const vh::S
 			sim.simProcSetInputPin(b.inPins[i], sim::convertToExtended(vh::bitsFromString(row[i])));
 		sim.reevaluate();
 		std::vector<std::string> outs;
-		for (auto *p : b.outPins) {
-			auto drv = p->getDriver(0);
+		for (auto drv : outDrv) {
 			if (!drv.node) { outs.push_back("u"); continue; }
 			outs.push_back(vh::bitsToString(recordReads ? sim.simProcGetValueOfOutput(drv) : sim.getValueOfOutput(drv)));
 		}
@@ -203,6 +203,8 @@ static void runVariant(const CaseSpec &s, const fs::path &dir, unsigned shuffles
 		fs::create_directories(ex);
 		sim::ReferenceSimulator sim(false);
 		sim.compileProgram(design.getCircuit());
+		std::vector<hlim::NodePort> outDrv;
+		for (auto *p : b.outPins) outDrv.push_back(p->getDriver(0));
 		Trace post;
 		{
 			vhdl::VHDLExport vhdl(ex / "design.vhd", true);
@@ -216,7 +218,7 @@ static void runVariant(const CaseSpec &s, const fs::path &dir, unsigned shuffles
 			vhdl.writeClocksFile("clocks.txt");
 			if (s.tb) vhdl.addTestbenchRecorder(sim, "testbench", false);
 			vhdl(design.getCircuit());
-			post = drive(sim, b, st, s.tb);
+			post = drive(sim, b, st, s.tb, outDrv);
 		}
 		writeTrace(dir / "trace_post.txt", post);
 		status << "ok\n";
